@@ -8,6 +8,8 @@ from gv import rules
 from gv.astutil import compare_parts
 from gv.astutil import const_value
 from gv.astutil import dotted
+from gv.astutil import flip_cmp
+from gv.astutil import kwarg
 from gv.astutil import last_attr
 from gv.astutil import names_in
 from gv.astutil import norm_stmt
@@ -43,12 +45,95 @@ describe(
 )
 
 
+def _member_kind(func: ast.AST, loop: ast.For, e: ast.AST, all_nodes: set[str], _depth: int = 0) -> tuple | None:
+    """How the expression ``e`` (inside ``for C in ...``) holds the members of the component ``C``:
+
+    ``("perm",)`` an iterable holding each member exactly once, in some order (``C``, ``sorted(C, key=...)``, ``[m for m in C]``,
+    the values of a map, ``[D[k] for k in sorted(D)]``, the graph's node list filtered by membership in ``C``);
+    ``("pairs", k)`` tuples whose k-th items are such a permutation (``(key(m), m) for m in C``, ``D.items()``);
+    ``("map", D)`` / ``("keys", D)`` a dict ``D`` whose values are such a permutation (one entry per member, keys distinct for
+    distinct members: ``{key(m): m for m in C}`` or the loop ``for m in C: D[key(m)] = m``), resp. its keys.  None: unknown.
+    """
+    if _depth > 8:
+        return None
+    comp = dotted(loop.target)
+    rec = lambda x: _member_kind(func, loop, x, all_nodes, _depth + 1)  # noqa: E731
+    # order / container changes keep the elements
+    while isinstance(e, ast.Call) and dotted(e.func) in ("sorted", "list", "tuple", "reversed", "iter") and len(e.args) == 1:
+        e = e.args[0]
+    if isinstance(e, ast.Name):
+        if e.id == comp:
+            return ("perm",)
+        top = [s_ for s_ in loop.body if any(isinstance(n_, ast.Name) and n_.id == e.id and isinstance(n_.ctx, ast.Store) for n_ in ast.walk(s_))]
+        stores = [s_ for s_ in ast.walk(loop) if isinstance(s_, ast.stmt) and not isinstance(s_, (ast.For, ast.While, ast.If, ast.With, ast.Try)) and any(dotted(t_) == e.id or (isinstance(t_, ast.Subscript) and dotted(t_.value) == e.id) for t_ in (s_.targets if isinstance(s_, ast.Assign) else [getattr(s_, "target", None)]) if t_ is not None)]
+        mut = [c for c in ast.walk(loop) if isinstance(c, ast.Call) and isinstance(c.func, ast.Attribute) and dotted(c.func.value) == e.id and c.func.attr in ("pop", "popitem", "clear", "update", "setdefault", "remove", "append", "extend", "insert")] + [d_ for d_ in ast.walk(loop) if isinstance(d_, ast.Delete) and any(e.id in names_in(t_) for t_ in d_.targets)]
+        if mut or len(top) != 1 or not isinstance(top[0], ast.Assign) or len(top[0].targets) != 1:
+            return None
+        val = top[0].value
+        if isinstance(val, ast.DictComp) and len(stores) == 1:
+            g_ = val.generators[0]
+            if len(val.generators) == 1 and not g_.ifs and isinstance(g_.target, ast.Name) and rec(g_.iter) == ("perm",) and dotted(val.value) == g_.target.id and g_.target.id in names_in(val.key):
+                return ("map", e.id)
+            return None
+        empty = (isinstance(val, ast.Dict) and not val.keys) or (isinstance(val, ast.Call) and dotted(val.func) == "dict" and not val.args and not val.keywords)
+        if empty and len(stores) == 2:
+            # D = {}; for m in C: [k = key(m);] D[k] = m   -- every iteration stores its member under its own key
+            fill = [s_ for s_ in stores if s_ is not top[0]][0]
+            fl = [s_ for s_ in loop.body if isinstance(s_, ast.For) and any(sub is fill for sub in s_.body)]
+            if len(fl) == 1 and isinstance(fill, ast.Assign) and isinstance(fill.targets[0], ast.Subscript) and isinstance(fl[0].target, ast.Name) and not fl[0].orelse and rec(fl[0].iter) == ("perm",) and not any(isinstance(x, (ast.If, ast.Continue, ast.Break, ast.Try, ast.While)) for x in ast.walk(fl[0])):
+                m_ = fl[0].target.id
+                keys = unfolded(func, fill.targets[0].slice) or [fill.targets[0].slice]
+                if dotted(fill.value) == m_ and all(m_ in names_in(k_) for k_ in keys) and loop.body.index(top[0]) < loop.body.index(fl[0]):
+                    return ("map", e.id)
+            return None
+        return rec(val) if len(stores) == 1 else None
+    if isinstance(e, ast.Call) and isinstance(e.func, ast.Attribute) and e.func.attr in ("values", "keys", "items") and not e.args:
+        k_ = rec(e.func.value)
+        if k_ and k_[0] == "map":
+            return {"values": ("perm",), "keys": ("keys", k_[1]), "items": ("pairs", 1)}[e.func.attr]
+        return None
+    if isinstance(e, (ast.ListComp, ast.GeneratorExp)) and len(e.generators) == 1:
+        g_ = e.generators[0]
+        if g_.ifs:
+            # the nodes of the graph that are in the component, in graph order (the components partition those nodes)
+            its = unfolded(func, g_.iter) or [g_.iter]
+            cp = compare_parts(g_.ifs[0]) if len(g_.ifs) == 1 else None
+            if cp and cp[1] is ast.In and isinstance(g_.target, ast.Name) and dotted(cp[0]) == g_.target.id and dotted(cp[2]) == comp and dotted(e.elt) == g_.target.id and all(norm_stmt(i_) in all_nodes for i_ in its):
+                return ("perm",)
+            return None
+        src = rec(g_.iter)
+        if src is None:
+            return None
+        if src[0] == "map":
+            src = ("keys", src[1])
+        if src == ("perm",) and isinstance(g_.target, ast.Name):
+            if dotted(e.elt) == g_.target.id:
+                return ("perm",)
+            if isinstance(e.elt, ast.Tuple):
+                at = [i for i, x in enumerate(e.elt.elts) if dotted(x) == g_.target.id]
+                return ("pairs", at[0]) if len(at) >= 1 else None
+            return None
+        if src[0] == "keys" and isinstance(g_.target, ast.Name):
+            if dotted(e.elt) == g_.target.id:
+                return src
+            if isinstance(e.elt, ast.Subscript) and dotted(e.elt.value) == src[1] and dotted(e.elt.slice) == g_.target.id:
+                return ("perm",)
+            return None
+        if src[0] == "pairs" and isinstance(g_.target, ast.Tuple) and len(g_.target.elts) > src[1] and isinstance(g_.target.elts[src[1]], ast.Name):
+            w = g_.target.elts[src[1]].id
+            if dotted(e.elt) == w and w != "_":
+                return ("perm",)
+            return None
+    return None
+
+
 def check_orientation(ctx: Ctx) -> None:
     # site 1: edge direction
     f = ctx.index.method(DG, "DependencyGraph", "__create_graph")
     con1 = cname(DG, "DependencyGraph", "__create_graph")
     # loops: for disc_i, (_, outputs_i) ...: for disc_j, (inputs_j, _) ...
-    loops = [s for s in stmts_of(f) if isinstance(s, ast.For) and isinstance(s.target, ast.Tuple) and len(s.target.elts) == 2 and isinstance(s.target.elts[1], ast.Tuple)]
+    # (the pair is unpacked in the loop header, or bound to a name and indexed: `for d, ios in ...: ios[1]`)
+    loops = [s for s in stmts_of(f) if isinstance(s, ast.For) and isinstance(s.target, ast.Tuple) and len(s.target.elts) == 2 and isinstance(s.target.elts[0], ast.Name) and isinstance(s.target.elts[1], (ast.Tuple, ast.Name)) and isinstance(s.iter, ast.Call) and last_attr(s.iter) == "items"]
     ctx.need(len(loops) == 2, "__create_graph: the two loops over (discipline, (inputs, outputs)) were not found")
     # nodes_to_ios[disc] = (inputs, outputs): find the order of the tuple
     # (the map is built by a loop `nodes_to_ios[disc] = (...)` or by a dict comprehension `{disc: (...) for disc in ...}`)
@@ -68,12 +153,21 @@ def check_orientation(ctx: Ctx) -> None:
     role = {}  # variable name -> (discipline var, 'in'|'out')
     for lp in loops:
         d = lp.target.elts[0].id
+        if isinstance(lp.target.elts[1], ast.Name):
+            pair = lp.target.elts[1].id
+            for pos in (0, 1):
+                role[f"{pair}[{pos}]"] = (d, order[pos])
+            for s_ in ast.walk(lp):
+                if isinstance(s_, ast.Assign) and len(s_.targets) == 1 and isinstance(s_.targets[0], ast.Name) and isinstance(s_.value, ast.Subscript) and dotted(s_.value.value) == pair and const_value(s_.value.slice) in (0, 1, -1, -2):
+                    role[s_.targets[0].id] = (d, order[const_value(s_.value.slice) % 2])
+            continue
         for pos, e in enumerate(lp.target.elts[1].elts):
             if isinstance(e, ast.Name) and e.id != "_":
                 role[e.id] = (d, order[pos])
     inter = [s for s in stmts_of(f) if isinstance(s, ast.Assign) and isinstance(s.value, ast.BinOp) and isinstance(s.value.op, ast.BitAnd)]
     ctx.need(len(inter) == 1, "__create_graph: coupled_io = outputs & inputs not found")
-    a, b = dotted(inter[0].value.left), dotted(inter[0].value.right)
+    opnd = lambda e_: f"{dotted(e_.value)}[{const_value(e_.slice) % 2}]" if isinstance(e_, ast.Subscript) and isinstance(const_value(e_.slice), int) else dotted(e_)  # noqa: E731
+    a, b = opnd(inter[0].value.left), opnd(inter[0].value.right)
     ctx.need(a in role and b in role, "__create_graph: operands of the intersection are not the unpacked grammars")
     producer = role[a][0] if role[a][1] == "out" else (role[b][0] if role[b][1] == "out" else None)
     consumer = role[a][0] if role[a][1] == "in" else (role[b][0] if role[b][1] == "in" else None)
@@ -101,26 +195,50 @@ def check_orientation(ctx: Ctx) -> None:
     # site 2: peeled degree
     g = ctx.index.method(DG, "DependencyGraph", "__get_leaves")
     con2 = cname(DG, "DependencyGraph", "__get_leaves")
-    degs = [c for c in walk_body(g) if isinstance(c, ast.Call) and last_attr(c) in ("out_degree", "in_degree")]
+    # the degree of a node, however it is read: `G.out_degree(n)`, `G.out_degree[n]`, the pairs of the degree view
+    # (`for n, d in G.out_degree()` / `in G.out_degree`), or the adjacency itself (`G.succ[n]`, `G.pred[n]`: empty iff degree 0)
+    direction = {"out_degree": -1, "in_degree": 1, "succ": -1, "adj": -1, "pred": 1}
+    is_view = lambda e_: (isinstance(e_, ast.Attribute) and e_.attr in direction) or (isinstance(e_, ast.Call) and not e_.args and not e_.keywords and isinstance(e_.func, ast.Attribute) and e_.func.attr in ("out_degree", "in_degree"))  # noqa: E731
+    view_attr = lambda e_: e_.attr if isinstance(e_, ast.Attribute) else e_.func.attr  # noqa: E731
+    degs = []  # (sign, kind 'number'|'mapping', matches(expr), selected node variable or None, anchor)
+    for c in walk_body(g):
+        if isinstance(c, ast.Call) and last_attr(c) in ("out_degree", "in_degree") and len(c.args) == 1:
+            degs.append((direction[last_attr(c)], "number", (lambda x, c=c: x is c), None, c))
+        elif isinstance(c, ast.Subscript) and is_view(c.value):
+            a_ = view_attr(c.value)
+            degs.append((direction[a_], "number" if a_.endswith("degree") else "mapping", (lambda x, c=c: x is c), None, c))
+        elif isinstance(c, (ast.ListComp, ast.GeneratorExp, ast.SetComp)) or isinstance(c, ast.For):
+            for it, tg in [(g_.iter, g_.target) for g_ in c.generators] if not isinstance(c, ast.For) else [(c.iter, c.target)]:
+                if is_view(it) and view_attr(it).endswith("degree") and isinstance(tg, ast.Tuple) and len(tg.elts) == 2 and isinstance(tg.elts[1], ast.Name):
+                    degs.append((direction[view_attr(it)], "number", (lambda x, d_=tg.elts[1].id: dotted(x) == d_), dotted(tg.elts[0]), it))
     ctx.need(len(degs) == 1, "__get_leaves: degree test not found")
-    s2 = -1 if last_attr(degs[0]) == "out_degree" else 1  # out_degree == 0: consumers of nobody = last to run
-    cmps = [c for c in walk_body(g) if isinstance(c, ast.Compare) and degs[0] in list(ast.walk(c))]
-    ok = len(cmps) == 1 and isinstance(cmps[0].ops[0], ast.Eq) and const_value(cmps[0].comparators[0], 1) == 0
-    if not ok:
-        # the same selection spelled `not graph.out_degree(n)`, or over the degree view: `for n, d in graph.out_degree() if d == 0`
-        comps = [c for c in walk_body(g) if isinstance(c, (ast.ListComp, ast.GeneratorExp, ast.SetComp))]
-        for c in comps:
-            gen = c.generators[0]
-            if len(gen.ifs) != 1:
-                continue
-            cond = gen.ifs[0]
-            if isinstance(cond, ast.UnaryOp) and isinstance(cond.op, ast.Not) and cond.operand is degs[0] and degs[0].args:
-                ok = True
-            if gen.iter is degs[0] and not degs[0].args and isinstance(gen.target, ast.Tuple) and len(gen.target.elts) == 2:
-                dvar = dotted(gen.target.elts[1])
-                zero = (isinstance(cond, ast.Compare) and dotted(cond.left) == dvar and isinstance(cond.ops[0], ast.Eq) and const_value(cond.comparators[0], 1) == 0) or (isinstance(cond, ast.UnaryOp) and isinstance(cond.op, ast.Not) and dotted(cond.operand) == dvar)
-                ok = zero and dotted(c.elt) == dotted(gen.target.elts[0])
-    ctx.ob("8.1-peel", con2, ok, "peeled nodes are those of degree 0", node=(cmps or degs)[0])
+    s2, kind, is_deg, picked, anchor = degs[0]  # out_degree == 0: consumers of nobody = last to run
+
+    def zero_tested(cond: ast.AST) -> ast.AST | None:
+        """The expression that ``cond`` requires to be 0 (or empty)."""
+        if isinstance(cond, ast.UnaryOp) and isinstance(cond.op, ast.Not):
+            x = cond.operand
+            return x.args[0] if kind == "mapping" and isinstance(x, ast.Call) and dotted(x.func) == "len" and len(x.args) == 1 else x
+        cp = compare_parts(cond)
+        if cp is None:
+            return None
+        l_, op, r_ = cp
+        if const_value(l_) is not None and const_value(r_) is None:
+            l_, op, r_ = r_, flip_cmp(op()), l_
+        k_ = const_value(r_)
+        if isinstance(k_, bool) or (op, k_) not in ((ast.Eq, 0), (ast.Lt, 1), (ast.LtE, 0)):
+            return None
+        if isinstance(l_, ast.Call) and dotted(l_.func) == "len" and len(l_.args) == 1 and kind == "mapping":
+            return l_.args[0]
+        return l_ if kind == "number" else None
+
+    # the conditions that select the peeled nodes: filters of the comprehension, or tests of an explicit loop
+    conds = [i_ for c in walk_body(g) if isinstance(c, (ast.ListComp, ast.GeneratorExp, ast.SetComp)) for g_ in c.generators for i_ in g_.ifs] + [s_.test for s_ in stmts_of(g) if isinstance(s_, ast.If)]
+    ok = len(conds) == 1 and zero_tested(conds[0]) is not None and is_deg(zero_tested(conds[0]))
+    if ok and picked is not None:
+        comps = [c for c in walk_body(g) if isinstance(c, (ast.ListComp, ast.GeneratorExp, ast.SetComp)) and any(g_.iter is anchor for g_ in c.generators)]
+        ok = not comps or dotted(comps[0].elt) == picked
+    ctx.ob("8.1-peel", con2, ok, "peeled nodes are those of degree 0", node=(conds[0] if conds else anchor))
     # site 3: final reversal
     h = ctx.index.method(DG, "DependencyGraph", "get_execution_sequence")
     con3 = cname(DG, "DependencyGraph", "get_execution_sequence")
@@ -143,16 +261,33 @@ def check_orientation(ctx: Ctx) -> None:
     lv = dotted(leaves[0].targets[0])
     gname = dotted(leaves[0].value.args[0]) if leaves[0].value.args else None
     rm = [c for c in walk_body(h) if isinstance(c, ast.Call) and last_attr(c) in ("remove_nodes_from", "remove_node")]
-    ok = len(rm) == 1 and dotted(rm[0].func.value) == gname and dotted(rm[0].args[0]) == lv
+    ok = len(rm) == 1 and dotted(rm[0].func.value) == gname and len(rm[0].args) == 1
+    if ok and last_attr(rm[0]) == "remove_nodes_from":
+        a_ = rm[0].args[0]
+        while isinstance(a_, ast.Call) and dotted(a_.func) in ("list", "tuple", "set") and len(a_.args) == 1:
+            a_ = a_.args[0]
+        ok = dotted(a_) == lv
+    elif ok:
+        # node by node: `for n in leaves: graph.remove_node(n)`, every iteration removing its node
+        over = [s_ for s_ in stmts_of(h) if isinstance(s_, ast.For) and dotted(s_.iter) == lv and any(sub is rm[0] for sub in ast.walk(s_))]
+        ok = len(over) == 1 and dotted(rm[0].args[0]) == dotted(over[0].target) and not over[0].orelse and not any(isinstance(x, (ast.If, ast.IfExp, ast.Break, ast.Continue, ast.Try, ast.Return, ast.While)) for x in ast.walk(over[0]))
     ctx.ob("8.3-once", con3, ok, "exactly the peeled nodes must be removed from the condensed graph: removing others drops disciplines from the schedule, removing fewer never terminates", node=(rm or [h])[0])
-    comp = [n for n in walk_body(h) if isinstance(n, ast.ListComp)]
-    ok = len(comp) == 1 and dotted(comp[0].generators[0].iter) == lv and not comp[0].generators[0].ifs and "members" in unparse(comp[0].elt) and dotted(comp[0].generators[0].target) in names_in(comp[0].elt)
-    ctx.ob("8.3-once", con3, ok, "each stage must hold the members of every peeled node (and of them only)", node=(comp or [h])[0])
+    # the stage: one element per peeled node, by a comprehension or by a loop with append
+    stages = [{"iter": n.generators[0].iter, "target": n.generators[0].target, "elements": [n.elt], "conditional": bool(n.generators[0].ifs), "node": n} for n in walk_body(h) if isinstance(n, ast.ListComp) and len(n.generators) == 1]
+    stages += [a_ for a_ in accumulated_lists(h) if isinstance(a_["node"], ast.Call) and a_["name"] != "execution_sequence"]
+    comp = [n for n in walk_body(h) if isinstance(n, ast.ListComp) and len(n.generators) != 1]
+    ok = len(stages) == 1 and not comp and dotted(stages[0]["iter"]) == lv and not stages[0]["conditional"] and all("members" in unparse(e_) and dotted(stages[0]["target"]) in names_in(e_) for e_ in stages[0]["elements"])
+    ctx.ob("8.3-once", con3, ok, "each stage must hold the members of every peeled node (and of them only)", node=(stages[0]["node"] if stages else h))
     brk = [s for s in stmts_of(h) if isinstance(s, ast.Break)]
     from gv.props.shared import literal_facts as _lf
 
     fb = _lf(cfgh, cfgh.node_of(brk[0])) if len(brk) == 1 else {}
     ok = len(brk) == 1 and (fb.get(lv) is False or fb.get(f"len({lv})") is False or fb.get(f"len({lv}) == 0") is True)
+    if not brk and gname:
+        # no break: the loop runs while the graph still has nodes, so it cannot stop with a leaf left over
+        wl = [s_ for s_ in stmts_of(h) if isinstance(s_, ast.While) and any(sub is leaves[0] for sub in ast.walk(s_))]
+        nonempty = {gname, f"len({gname})", f"len({gname}) > 0", f"len({gname}) != 0", f"len({gname}) >= 1", f"{gname}.nodes", f"len({gname}.nodes)", f"len({gname}.nodes) > 0", f"{gname}.number_of_nodes()", f"{gname}.number_of_nodes() > 0", f"{gname}.order()", f"{gname}.order() > 0"}
+        ok = len(wl) == 1 and norm_stmt(wl[0].test) in nonempty and not any(isinstance(x, ast.Return) for x in ast.walk(wl[0]))
     ctx.ob("8.3-once", con3, ok, "peeling stops only when no leaf is left", node=(brk or [h])[0])
     if rm and acc:
         ok = cfgh.reachable(cfgh.node_of(acc[0]), cfgh.node_of(rm[0])) or cfgh.reachable(cfgh.node_of(rm[0]), cfgh.node_of(acc[0]))
@@ -167,16 +302,11 @@ def check_orientation(ctx: Ctx) -> None:
     o = ctx.index.method(DG, "DependencyGraph", "__get_ordered_scc")
     ys = [n for n in walk_body(o) if isinstance(n, ast.Yield)]
     lp = [s for s in stmts_of(o) if isinstance(s, ast.For) and dotted(s.iter) == o.args.args[1].arg]
-    ok = len(ys) == 1 and len(lp) == 1
+    # one yield per component, made at every iteration, of a sequence that holds each member of the component exactly once
+    ok = len(ys) == 1 and len(lp) == 1 and not lp[0].orelse and any(isinstance(s_, ast.Expr) and s_.value is ys[0] for s_ in lp[0].body) and not any(isinstance(x, (ast.Continue, ast.Break, ast.Return)) for x in ast.walk(lp[0]))
     if ok:
-        inner = [s for s in ast.walk(lp[0]) if isinstance(s, ast.For) and dotted(s.iter) == dotted(lp[0].target)]
-        ok = len(inner) == 1 and not any(isinstance(x, (ast.If, ast.Continue, ast.Break)) for x in ast.walk(inner[0]))
-    if not ok and len(ys) == 1 and len(lp) == 1:
-        # `yield sorted(component, key=...)`: a permutation of the component by construction
-        v_ = ys[0].value
-        if isinstance(v_, ast.Call) and dotted(v_.func) in ("list", "tuple") and len(v_.args) == 1:
-            v_ = v_.args[0]
-        ok = isinstance(v_, ast.Call) and dotted(v_.func) == "sorted" and v_.args and dotted(v_.args[0]) == dotted(lp[0].target) and any(sub is ys[0] for sub in ast.walk(lp[0]))
+        all_nodes = {"self.__graph", "self.__graph.nodes", "self.__graph.nodes()", "list(self.__graph)", "list(self.__graph.nodes)", "list(self.__graph.nodes())", "tuple(self.__graph.nodes)", "tuple(self.__graph)"}
+        ok = ys[0].value is not None and _member_kind(o, lp[0], ys[0].value, all_nodes) == ("perm",)
     ctx.ob("8.2-scc", cname(DG, "DependencyGraph", "__get_ordered_scc"), ok, "__get_ordered_scc may only reorder the members of each component (one yield per component, every member kept)", node=(ys or [o])[0])
     # the sequence used everywhere is this one
     init = ctx.index.method(CS, "CouplingStructure", "__init__")
@@ -188,9 +318,64 @@ def check_orientation(ctx: Ctx) -> None:
         recv = seq[0].value.func.value
         g_alts = unfolded(init, gr[0], get=lambda st: st.value) or [gr[0].value]
         r_alts = [gr[0].value] if dotted(recv) == "self.graph" else (unfolded(init, recv) or [recv])
-        is_graph = lambda a_: isinstance(a_, ast.Call) and dotted(a_.func) == "DependencyGraph" and a_.args and dotted(a_.args[0]) == "disciplines"  # noqa: E731
-        ok = all(is_graph(a_) for a_ in g_alts) and (dotted(recv) == "self.graph" or (all(is_graph(a_) for a_ in r_alts) and dotted(recv) == dotted(gr[0].value)))
+        cfgi = cfg_of(init)
+        par = init.args.args[1].arg if len(init.args.args) > 1 else "disciplines"
+
+        def own_disciplines(a_: ast.AST) -> bool:
+            """The constructor's argument, by its name or through the attribute that was just bound to it."""
+            if dotted(a_) == par:
+                return True
+            if isinstance(a_, ast.Attribute) and dotted(a_.value) == "self":
+                st = rules.assigns_to_self(init, a_.attr)
+                return len(st) == 1 and isinstance(st[0], ast.Assign) and dotted(st[0].value) == par and cfgi.dominates(cfgi.node_of(st[0]), cfgi.node_of(gr[0])) and cfgi.node_of(st[0]) != cfgi.node_of(gr[0])
+            return False
+
+        is_graph = lambda a_: isinstance(a_, ast.Call) and dotted(a_.func) == "DependencyGraph" and a_.args and own_disciplines(a_.args[0])  # noqa: E731
+        # the receiver is the object held by self.graph: `self.graph` itself, the local it was assigned from, or a local bound by
+        # the same (chained) assignment
+        same_obj = dotted(recv) == "self.graph" or (isinstance(recv, ast.Name) and (dotted(recv) == dotted(gr[0].value) or (isinstance(gr[0], ast.Assign) and any(dotted(t_) == recv.id for t_ in gr[0].targets))))
+        ok = all(is_graph(a_) for a_ in g_alts) and same_obj and (dotted(recv) == "self.graph" or all(is_graph(a_) for a_ in r_alts)) and cfgi.dominates(cfgi.node_of(gr[0]), cfgi.node_of(seq[0]))
     ctx.ob("8.2-scc", cname(CS, "CouplingStructure", "__init__"), ok, "the coupling structure's sequence must be the execution sequence of the dependency graph of its own disciplines", node=(seq or [init])[0])
+
+
+def _ordered_builds(func: ast.AST, inline: ast.AST | None = None) -> list[dict]:
+    """``accumulated_lists`` plus the other spellings of "one element per item, in iteration order": ``xs = list(map(f, it))``,
+    ``xs = []; xs.extend(e for t in it)`` and a comprehension written in place in the expression ``inline`` (name None)."""
+    out = list(accumulated_lists(func))
+
+    def of_expr(e: ast.AST, name, node) -> dict | None:
+        while isinstance(e, ast.Call) and dotted(e.func) in ("list", "tuple") and len(e.args) == 1 and not e.keywords:
+            e = e.args[0]
+        if isinstance(e, (ast.ListComp, ast.GeneratorExp)) and len(e.generators) == 1:
+            g_ = e.generators[0]
+            return {"name": name, "iter": g_.iter, "target": g_.target, "elements": [e.elt], "node": node, "conditional": bool(g_.ifs)}
+        if isinstance(e, ast.Call) and dotted(e.func) == "map" and len(e.args) == 2 and not e.keywords:
+            t_ = ast.Name(id="_item", ctx=ast.Load())
+            fn = e.args[0]
+            elt = ast.Call(func=fn, args=[t_], keywords=[])
+            if isinstance(fn, ast.Lambda) and len(fn.args.args) == 1:
+                t_, elt = ast.Name(id=fn.args.args[0].arg, ctx=ast.Load()), fn.body
+            return {"name": name, "iter": e.args[1], "target": t_, "elements": [elt], "node": node, "conditional": False}
+        return None
+
+    known = {id(a["node"]) for a in out}
+    for s_ in stmts_of(func):
+        if isinstance(s_, ast.Assign) and len(s_.targets) == 1 and isinstance(s_.targets[0], ast.Name) and id(s_) not in known:
+            r = of_expr(s_.value, s_.targets[0].id, s_)
+            if r is not None:
+                out.append(r)
+    empty = {s_.targets[0].id for s_ in stmts_of(func) if isinstance(s_, ast.Assign) and len(s_.targets) == 1 and isinstance(s_.targets[0], ast.Name) and ((isinstance(s_.value, ast.List) and not s_.value.elts) or (isinstance(s_.value, ast.Call) and dotted(s_.value.func) == "list" and not s_.value.args))}
+    for c in walk_body(func):
+        if isinstance(c, ast.Call) and isinstance(c.func, ast.Attribute) and c.func.attr == "extend" and isinstance(c.func.value, ast.Name) and c.func.value.id in empty and len(c.args) == 1:
+            if not any(isinstance(l_, (ast.For, ast.While)) and any(sub is c for sub in ast.walk(l_)) for l_ in stmts_of(func)):
+                r = of_expr(c.args[0], c.func.value.id, c)
+                if r is not None:
+                    out.append(r)
+    if inline is not None and not isinstance(inline, ast.Name):
+        r = of_expr(inline, None, inline)
+        if r is not None:
+            out.append(r)
+    return out
 
 
 def check_chains(ctx: Ctx) -> None:
@@ -209,7 +394,10 @@ def check_chains(ctx: Ctx) -> None:
         ctx.ob("8.4-chain", con, bool(ok), "the outputs of each discipline must be merged into the chain's data before the next one runs", node=(up or loops)[0])
     g = ctx.index.method(MC, "MDAChain", "_create_mdo_chain")
     con2 = cname(MC, "MDAChain", "_create_mdo_chain")
-    accs = [a for a in accumulated_lists(g) if norm_stmt(a["iter"]) == "self.coupling_structure.sequence"]
+    rets = [s for s in stmts_of(g) if isinstance(s, ast.Return)]
+    chain = rets[0].value if len(rets) == 1 and isinstance(rets[0].value, ast.Call) and dotted(rets[0].value.func) == "MDOChain" else None
+    chained = None if chain is None else (kwarg(chain, "disciplines") or (chain.args[0] if chain.args else None))
+    accs = [a for a in _ordered_builds(g, chained) if norm_stmt(a["iter"]) == "self.coupling_structure.sequence"]
     ok = len(accs) == 1
     ctx.ob("8.4-mda-chain", con2, ok, "the MDA chain must follow the execution sequence, stage by stage, in order", node=(accs[0]["node"] if accs else g), stmt="one pass over self.coupling_structure.sequence")
     if ok:
@@ -218,8 +406,9 @@ def check_chains(ctx: Ctx) -> None:
         ok = not acc["conditional"] and all(isinstance(e_, ast.Call) and (last_attr(e_) or "").endswith("__create_process_from_disciplines") and e_.args and dotted(e_.args[0]) == tv for e_ in acc["elements"])
         ctx.ob("8.4-mda-chain", con2, ok, "one process per stage, appended in stage order", node=acc["node"], stmt="one process per stage, in stage order")
         lst = acc["name"]
-        rets = [s for s in stmts_of(g) if isinstance(s, ast.Return)]
-        ok = len(rets) == 1 and isinstance(rets[0].value, ast.Call) and dotted(rets[0].value.func) == "MDOChain" and dotted(rets[0].value.args[0]) == lst
+        # the list handed to MDOChain is that one (by name, or built in place), and nothing else re-orders or trims it
+        other = [c for c in walk_body(g) if lst is not None and isinstance(c, ast.Call) and isinstance(c.func, ast.Attribute) and dotted(c.func.value) == lst and c.func.attr in ("insert", "reverse", "sort", "pop", "remove", "clear") ]
+        ok = chained is not None and ((lst is not None and dotted(chained) == lst) or any(sub is acc["node"] for sub in ast.walk(chained))) and not other
         ctx.ob("8.4-mda-chain", con2, ok, "the stages must be chained sequentially (MDOChain) in that order", node=(rets or [g])[0])
     p = ctx.index.method(MC, "MDAChain", "__compute_parallel_disciplines")
     con3 = cname(MC, "MDAChain", "__compute_parallel_disciplines")
@@ -227,33 +416,117 @@ def check_chains(ctx: Ctx) -> None:
     loops = [s for s in stmts_of(p) if isinstance(s, ast.For) and dotted(s.iter) == p.args.args[1].arg]
     ctx.need(len(loops) == 1, "__compute_parallel_disciplines: loop over the groups not found")
     grp = dotted(loops[0].target)
-    ap = [c for c in ast.walk(loops[0]) if isinstance(c, ast.Call) and norm_stmt(c.func) == "parallel_disciplines.append"]
-    ok = len(ap) == 1 and not [tv for tv in branch_conditions(cfg, cfg.node_of(ap[0])) if cfg.kind[tv[0]] == "test"]
+    # the result list: what the method returns
+    res = {dotted(s_.value) for s_ in stmts_of(p) if isinstance(s_, ast.Return) and s_.value is not None}
+    ctx.need(len(res) == 1 and None not in res, "__compute_parallel_disciplines: the returned list was not found")
+    out = res.pop()
+    ap = [c for c in ast.walk(loops[0]) if isinstance(c, ast.Call) and norm_stmt(c.func) == f"{out}.append"]
+    # every way through one iteration (the outcome of each test fixed), with what it appends to the result
+    paths = _iteration_paths(loops[0].body, out)
+    live = [q for q in paths if q["end"] != "raise"]
+    ok = bool(live) and all(q["end"] in (None, "continue") and len(q["appended"]) == 1 for q in live) and not loops[0].orelse
     ctx.ob("8.3-once", con3, ok, "every group of a stage yields exactly one process (MDA or single discipline)", node=(ap or loops)[0])
-    single = [s for s in ast.walk(loops[0]) if isinstance(s, ast.Assign) and isinstance(s.value, ast.Subscript) and dotted(s.value.value) == grp]
-    ok = len(single) == 1 and const_value(single[0].value.slice, 1) == 0
-    if ok:
-        conds = [(t, v) for t, v in branch_conditions(cfg, cfg.node_of(single[0])) if cfg.kind[t] == "test"]
-        ok = len(conds) == 1
-        if ok:
-            from gv.props.shared import conj_literals
 
-            cl = conj_literals(cfg.ast[conds[0][0]].test)
-            ok = len(cl) == 1 and "__requires_mda" in norm_stmt(cl[0][1]) and (cl[0][0] != conds[0][1])
-    ctx.ob("8.3-once", con3, ok, "a group is replaced by its single discipline only when it does not require an MDA", node=(single or loops)[0])
-    mda = [c for c in ast.walk(loops[0]) if isinstance(c, ast.Call) and "__inner_mda_class" in (dotted(c.func) or "")]
-    ok = len(mda) == 1 and any(k.arg == "disciplines" for k in mda[0].keywords)
-    if ok:
-        dv = dotted(next(k.value for k in mda[0].keywords if k.arg == "disciplines"))
-        dd = [s for s in ast.walk(loops[0]) if isinstance(s, ast.Assign) and dotted(s.targets[0]) == dv]
-        ok = len(dd) == 1 and isinstance(dd[0].value, ast.ListComp) and len(dd[0].value.generators[0].ifs) == 1 and grp in names_in(dd[0].value.generators[0].ifs[0]) and isinstance(dd[0].value.generators[0].ifs[0], ast.Compare) and isinstance(dd[0].value.generators[0].ifs[0].ops[0], ast.In)
-        if ok:
-            # membership of the discipline OBJECT in the group: two disciplines may have the same name, and a test on the
-            # name (or any attribute) pulls a namesake that is not coupled into the inner MDA
-            g_ = dd[0].value.generators[0]
-            t_ = g_.ifs[0]
-            ok = dotted(t_.left) == dotted(g_.target) and dotted(t_.comparators[0]) == grp and dotted(dd[0].value.elt) == dotted(g_.target)
-    ctx.ob("8.3-once", con3, ok, "the inner MDA of a group must contain exactly the disciplines of that group", node=(mda or loops)[0])
+    def only_requires(q: dict, outcome: bool) -> bool:
+        """The path is taken exactly under `__requires_mda(group)` having the given outcome (no other test on the way)."""
+        cs = {(norm_stmt(t_), v_): t_ for t_, v_ in q["conds"]}
+        return len(cs) == 1 and all(isinstance(t_, ast.Call) and (last_attr(t_) or "").endswith("__requires_mda") and t_.args and dotted(t_.args[0]) == grp and v_ is outcome for (_, v_), t_ in cs.items())
+
+    is_single = lambda e_: isinstance(e_, ast.Subscript) and dotted(e_.value) == grp  # noqa: E731
+    single = [q for q in live if any(is_single(e_) for e_ in q["appended"])]
+    ok = bool(single) and all(const_value(e_.slice, 1) == 0 for q in single for e_ in q["appended"] if is_single(e_)) and all(only_requires(q, False) for q in single)
+    ctx.ob("8.3-once", con3, ok, "a group is replaced by its single discipline only when it does not require an MDA", node=(single[0]["nodes"][0] if single and single[0]["nodes"] else loops[0]))
+    is_mda = lambda e_: isinstance(e_, ast.Call) and "__inner_mda_class" in (dotted(e_.func) or "")  # noqa: E731
+    mda = [q for q in live if any(is_mda(e_) for e_ in q["appended"])]
+    ok = bool(mda) and all(only_requires(q, True) for q in mda) and len(mda) + len(single) == len(live)
+    for q in mda:
+        for c in [e_ for e_ in q["appended"] if is_mda(e_)]:
+            # the constructor of every MDA takes the disciplines first
+            dd = kwarg(c, "disciplines") or (c.args[0] if c.args else None)
+            ok = ok and isinstance(dd, ast.ListComp) and len(dd.generators) == 1 and len(dd.generators[0].ifs) == 1 and isinstance(dd.generators[0].ifs[0], ast.Compare) and len(dd.generators[0].ifs[0].ops) == 1 and isinstance(dd.generators[0].ifs[0].ops[0], ast.In)
+            if ok:
+                # membership of the discipline OBJECT in the group: two disciplines may have the same name, and a test on the
+                # name (or any attribute) pulls a namesake that is not coupled into the inner MDA
+                g_ = dd.generators[0]
+                t_ = g_.ifs[0]
+                ok = dotted(t_.left) == dotted(g_.target) and dotted(t_.comparators[0]) == grp and dotted(dd.elt) == dotted(g_.target)
+    calls = [c for c in ast.walk(loops[0]) if isinstance(c, ast.Call) and "__inner_mda_class" in (dotted(c.func) or "")]
+    ctx.ob("8.3-once", con3, ok, "the inner MDA of a group must contain exactly the disciplines of that group", node=(calls or loops)[0])
+
+
+def _iteration_paths(body: list[ast.stmt], out: str) -> list[dict]:
+    """The ways through a loop body, one per combination of test outcomes: ``{"conds": [(test, outcome)], "appended": [expr],
+    "nodes": [call], "end": None | "continue" | "break" | "return" | "raise" | "opaque"}``.  ``appended`` are the arguments of
+    ``<out>.append(...)`` met on the way, with the locals assigned on that path replaced by their values, so that
+    ``d = g[0]; out.append(d)`` and ``out.append(g[0])`` read the same, in one branch or after the join."""
+    import copy
+
+    def subst(e: ast.AST, env: dict) -> ast.AST:
+        class R(ast.NodeTransformer):
+            def visit_Name(self, n):  # noqa: N802
+                if isinstance(n.ctx, ast.Load) and n.id in env:
+                    return copy.deepcopy(env[n.id])
+                return n
+
+            def visit_ListComp(self, n):  # noqa: N802
+                bound = {t.id for g_ in n.generators for t in ast.walk(g_.target) if isinstance(t, ast.Name)}
+                saved = {k: env.pop(k) for k in list(env) if k in bound}
+                try:
+                    return self.generic_visit(n)
+                finally:
+                    env.update(saved)
+
+            visit_GeneratorExp = visit_SetComp = visit_DictComp = visit_ListComp  # noqa: N815
+
+        return R().visit(copy.deepcopy(e))
+
+    def run(stmts: list[ast.stmt], states: list[dict]) -> list[dict]:
+        for st in stmts:
+            nxt = []
+            for q in states:
+                if q["end"] is not None:
+                    nxt.append(q)
+                    continue
+                if isinstance(st, ast.If):
+                    t_, pol = subst(st.test, q["env"]), True
+                    while isinstance(t_, ast.UnaryOp) and isinstance(t_.op, ast.Not):
+                        t_, pol = t_.operand, not pol
+                    for branch, v_ in ((st.body, pol), (st.orelse, not pol)):
+                        fork = {"conds": [*q["conds"], (t_, v_)], "env": dict(q["env"]), "appended": list(q["appended"]), "nodes": list(q["nodes"]), "end": None}
+                        nxt.extend(run(branch, [fork]))
+                    continue
+                if isinstance(st, (ast.Assign, ast.AnnAssign)) and st.value is not None:
+                    tgts = st.targets if isinstance(st, ast.Assign) else [st.target]
+                    val = subst(st.value, q["env"])
+                    for t_ in tgts:
+                        if isinstance(t_, ast.Name):
+                            q["env"][t_.id] = val
+                        else:
+                            for n_ in ast.walk(t_):
+                                if isinstance(n_, ast.Name) and isinstance(n_.ctx, ast.Store):
+                                    q["env"].pop(n_.id, None)
+                elif isinstance(st, (ast.Continue, ast.Break, ast.Return, ast.Raise)):
+                    q["end"] = type(st).__name__.lower()
+                elif isinstance(st, (ast.For, ast.While, ast.With, ast.Try, ast.Match)):
+                    if any(isinstance(c, ast.Call) and norm_stmt(c.func).startswith(out + ".") for c in ast.walk(st)) or any(isinstance(x, (ast.Continue, ast.Break, ast.Return)) for x in ast.walk(st)):
+                        q["end"] = "opaque"
+                    else:
+                        for n_ in ast.walk(st):
+                            if isinstance(n_, ast.Name) and isinstance(n_.ctx, ast.Store):
+                                q["env"].pop(n_.id, None)
+                else:
+                    for c in ast.walk(st):
+                        if isinstance(c, ast.Call) and isinstance(c.func, ast.Attribute) and dotted(c.func.value) == out:
+                            if c.func.attr == "append" and len(c.args) == 1:
+                                q["appended"].append(subst(c.args[0], q["env"]))
+                                q["nodes"].append(c)
+                            else:
+                                q["end"] = "opaque"
+                nxt.append(q)
+            states = nxt
+        return states
+
+    return run(body, [{"conds": [], "env": {}, "appended": [], "nodes": [], "end": None}])
 
 
 def _needs_mda_shape(e: ast.AST, group: str, need_self_coupled: bool) -> tuple[bool, str]:
@@ -328,20 +601,42 @@ def check_needs_mda(ctx: Ctx) -> None:
     ctx.ob("8.5-needs-mda", cname(MD, None, "_replace_strongly_coupled"), ok, "the derivative traversal must merge exactly the groups that need an MDA (more than one discipline, or a self-coupled one)", node=merged[0])
     h = ctx.index.method(CS, "CouplingStructure", "get_strongly_coupled_disciplines")
     cfgh = cfg_of(h)
-    calls = [c for c in walk_body(h) if isinstance(c, ast.Call) and dotted(c.func) == "strong_disc_update"]
-    ctx.need(len(calls) == 2, "get_strongly_coupled_disciplines: the two update sites were not found")
+    # the sites that add to the returned list: `<result>.append/extend(x)` written directly or through a local bound to that
+    # bound method (`update = result.append if by_group else result.extend`)
+    res = {dotted(s_.value) for s_ in stmts_of(h) if isinstance(s_, ast.Return) and s_.value is not None}
+    adders = {f"{r_}.{m_}" for r_ in res if r_ for m_ in ("append", "extend")}
+    alias = {}
+    for s_ in stmts_of(h):
+        if isinstance(s_, ast.Assign) and len(s_.targets) == 1 and isinstance(s_.targets[0], ast.Name):
+            vals = [s_.value.body, s_.value.orelse] if isinstance(s_.value, ast.IfExp) else [s_.value]
+            alias.setdefault(s_.targets[0].id, []).extend(dotted(v_) for v_ in vals)
+    alias = {k_ for k_, v_ in alias.items() if v_ and all(x in adders for x in v_)}
+    calls = [c for c in walk_body(h) if isinstance(c, ast.Call) and len(c.args) == 1 and (dotted(c.func) in alias or dotted(c.func) in adders)]
+    ctx.need(len(calls) >= 2, "get_strongly_coupled_disciplines: the two update sites were not found")
+    # the choice between a flat list and a list of groups (by_group) says nothing about WHICH disciplines are strongly coupled
+    fmt = {a_.arg for a_ in h.args.args if a_.arg == "by_group"}
+
+    def site_conds(c: ast.Call) -> list[tuple[int, bool]]:
+        return [(t, v) for t, v in branch_conditions(cfgh, cfgh.node_of(c)) if cfgh.kind[t] == "test" and not (names_in(cfgh.ast[t].test) and names_in(cfgh.ast[t].test) <= fmt)]
+
     big = [c for c in calls if dotted(c.args[0]) == "component"]
-    ok = len(big) == 1
-    if ok:
-        conds = [(t, v) for t, v in branch_conditions(cfgh, cfgh.node_of(big[0])) if cfgh.kind[t] == "test"]
-        ok = len(conds) == 1 and conds[0][1] and _needs_mda_shape(cfgh.ast[conds[0][0]].test, "component", False)[0]
+    ok = len(big) >= 1
+    for c in big:
+        conds = site_conds(c)
+        ok = ok and len(conds) == 1 and conds[0][1] and _needs_mda_shape(cfgh.ast[conds[0][0]].test, "component", False)[0]
     ctx.ob("8.5-needs-mda", cname(CS, "CouplingStructure", "get_strongly_coupled_disciplines"), ok, "groups of more than one discipline are strongly coupled", node=(big or calls)[0])
     small = [c for c in calls if c not in big]
-    ok = len(small) == 1
-    if ok:
-        conds = [(t, v) for t, v in branch_conditions(cfgh, cfgh.node_of(small[0])) if cfgh.kind[t] == "test"]
-        txts = [norm_stmt(cfgh.ast[t].test) for t, v in conds if v]
-        ok = "add_self_coupled" in txts and any("is_self_coupled" in t for t in txts)
+    ok = len(small) >= 1
+    for c in small:
+        txts = [norm_stmt(cfgh.ast[t].test) for t, v in site_conds(c) if v]
+        # a selection made by the loop itself: `for d in filter(pred, xs)` / `for d in (d for d in xs if pred(d))`
+        for lp_ in [s_ for s_ in stmts_of(h) if isinstance(s_, ast.For) and any(sub is c for sub in ast.walk(s_))]:
+            it = lp_.iter
+            if isinstance(it, ast.Call) and dotted(it.func) == "filter" and len(it.args) == 2 and dotted(lp_.target) in names_in(c.args[0]):
+                txts.append(f"{norm_stmt(it.args[0])}({dotted(lp_.target)})")
+            if isinstance(it, (ast.GeneratorExp, ast.ListComp)) and len(it.generators) == 1 and dotted(it.elt) == dotted(it.generators[0].target):
+                txts.extend(norm_stmt(i_) for i_ in it.generators[0].ifs)
+        ok = ok and "add_self_coupled" in txts and any("is_self_coupled" in t for t in txts)
     ctx.ob("8.5-needs-mda", cname(CS, "CouplingStructure", "get_strongly_coupled_disciplines"), ok, "a single discipline is strongly coupled iff it is self-coupled (when add_self_coupled)", node=(small or calls)[0])
     # same iteration order in the two routines zipped together
     for fn, con in ((g, cname(MD, None, "_replace_strongly_coupled")), (h, cname(CS, "CouplingStructure", "get_strongly_coupled_disciplines"))):
@@ -364,43 +659,175 @@ def check_needs_mda(ctx: Ctx) -> None:
 IC = "core/chains/initialization_chain.py"
 
 
+_WRAPPERS = ("set", "frozenset", "list", "tuple", "sorted")
+
+
+def _unwrap(e: ast.AST) -> ast.AST:
+    """``set(x)`` / ``list(x)`` / ``x.keys()`` / ``(x)``: the collection whose elements are meant."""
+    while True:
+        if isinstance(e, ast.Call) and dotted(e.func) in _WRAPPERS and len(e.args) == 1 and not e.keywords:
+            e = e.args[0]
+        elif isinstance(e, ast.Call) and isinstance(e.func, ast.Attribute) and e.func.attr in ("keys", "copy") and not e.args:
+            e = e.func.value
+        else:
+            return e
+
+
+def _union_leaves(e: ast.AST) -> list[ast.AST]:
+    """The operands of a union, however it is spelled (``a | b``, ``a.union(b, c)``, ``{*a, *b}``, ``[*a, *b]``, ``a + b`` of lists)."""
+    e = _unwrap(e)
+    if isinstance(e, ast.BinOp) and isinstance(e.op, (ast.BitOr, ast.Add)):
+        return _union_leaves(e.left) + _union_leaves(e.right)
+    if isinstance(e, ast.Call) and isinstance(e.func, ast.Attribute) and e.func.attr == "union":
+        return _union_leaves(e.func.value) + [l_ for a_ in e.args for l_ in _union_leaves(a_)]
+    if isinstance(e, (ast.Set, ast.List, ast.Tuple)) and e.elts and all(isinstance(x, ast.Starred) for x in e.elts):
+        return [l_ for x in e.elts for l_ in _union_leaves(x.value)]
+    return [e]
+
+
+def _difference(e: ast.AST) -> tuple[ast.AST, list[ast.AST]]:
+    """(base, removed operands) of ``base - a - b`` / ``base.difference(a).difference(b)`` / ``base.difference(a, b)``."""
+    u = _unwrap(e)
+    if isinstance(u, ast.BinOp) and isinstance(u.op, ast.Sub):
+        base, rem = _difference(u.left)
+        return base, rem + _union_leaves(u.right)
+    if isinstance(u, ast.Call) and isinstance(u.func, ast.Attribute) and u.func.attr == "difference":
+        base, rem = _difference(u.func.value)
+        return base, rem + [l_ for a_ in u.args for l_ in _union_leaves(a_)]
+    return u, []
+
+
+def _readiness(e: ast.AST) -> tuple[bool, ast.AST, list[ast.AST]] | None:
+    """``(polarity, required, sources)``: the test ``e`` has the truth value ``polarity`` iff every element of ``required``
+    is in one of ``sources``.  Recognised: emptiness of a difference (``not (r - a - b)``, ``len(...) == 0``, ``... == set()``),
+    inclusion (``r <= a | b``, ``r.issubset(...)``, ``(a | b).issuperset(r)``) and the element-wise forms
+    ``all(n in a or n in b for n in r)`` / ``any(n not in a and n not in b for n in r)``."""
+    if isinstance(e, ast.UnaryOp) and isinstance(e.op, ast.Not):
+        r = _readiness(e.operand)
+        return None if r is None else (not r[0], r[1], r[2])
+    if isinstance(e, ast.Call) and dotted(e.func) == "bool" and len(e.args) == 1:
+        return _readiness(e.args[0])
+    if isinstance(e, ast.Call) and dotted(e.func) in ("all", "any") and len(e.args) == 1 and isinstance(e.args[0], (ast.GeneratorExp, ast.ListComp)) and len(e.args[0].generators) == 1:
+        is_all = dotted(e.func) == "all"
+        gen = e.args[0].generators[0]
+        v = dotted(gen.target)
+        if not isinstance(gen.target, ast.Name):
+            return None
+        srcs: list[ast.AST] = []
+
+        def member(c: ast.AST, positive: bool) -> bool:
+            cp = compare_parts(c)
+            if cp is None or dotted(cp[0]) != v or cp[1] is not (ast.In if positive else ast.NotIn):
+                return False
+            srcs.extend(_union_leaves(cp[2]))
+            return True
+
+        # elements filtered out of the iteration are elements that need no source: `for n in r if n not in a`
+        if not all(member(c, False) for c in gen.ifs):
+            return None
+        elt = e.args[0].elt
+        parts = elt.values if isinstance(elt, ast.BoolOp) and isinstance(elt.op, ast.Or if is_all else ast.And) else [elt]
+        if not all(member(c, is_all) for c in parts):
+            return None
+        return is_all, gen.iter, srcs
+    cp = compare_parts(e)
+    if cp is not None:
+        l_, op, r_ = cp
+        if op in (ast.LtE, ast.GtE):
+            small, big = (l_, r_) if op is ast.LtE else (r_, l_)
+            base, rem = _difference(small)
+            return True, base, rem + _union_leaves(big)
+        is_len = lambda x: isinstance(x, ast.Call) and dotted(x.func) == "len" and len(x.args) == 1  # noqa: E731
+        is_empty = lambda x: (isinstance(x, ast.Call) and dotted(x.func) in ("set", "frozenset") and not x.args) or (isinstance(x, (ast.List, ast.Tuple)) and not x.elts)  # noqa: E731
+        if is_len(r_) and not is_len(l_):
+            l_, r_, op = r_, l_, flip_cmp(op())
+        if is_empty(l_) and not is_empty(r_):
+            l_, r_ = r_, l_
+        if is_len(l_):
+            k = const_value(r_)
+            pol = {(ast.Eq, 0): True, (ast.LtE, 0): True, (ast.Lt, 1): True, (ast.NotEq, 0): False, (ast.Gt, 0): False, (ast.GtE, 1): False}.get((op, k))
+            if pol is None or isinstance(k, bool):
+                return None
+            base, rem = _difference(l_.args[0])
+            return pol, base, rem
+        if is_empty(r_) and op in (ast.Eq, ast.NotEq):
+            base, rem = _difference(l_)
+            return op is ast.Eq, base, rem
+        return None
+    if isinstance(e, ast.Call) and isinstance(e.func, ast.Attribute) and e.func.attr in ("issubset", "issuperset") and len(e.args) == 1:
+        small, big = (e.func.value, e.args[0]) if e.func.attr == "issubset" else (e.args[0], e.func.value)
+        base, rem = _difference(small)
+        return True, base, rem + _union_leaves(big)
+    if isinstance(e, ast.Call) and dotted(e.func) == "len" and len(e.args) == 1:
+        e = e.args[0]
+    base, rem = _difference(e)
+    return (False, base, rem) if rem or isinstance(base, ast.Name) else None
+
+
 def check_initialization_order(ctx: Ctx) -> None:
     """8.6: the greedy initialisation order schedules a discipline only when each of its inputs is one of ITS OWN
     defaults, externally available, or an output of a discipline scheduled before."""
+    from gv.astutil import as_update
     from gv.dataflow import SymValues
 
     f = ctx.index.func(IC, "order_disciplines_from_default_inputs")
     con = cname(IC, None, "order_disciplines_from_default_inputs")
     sv = SymValues(f)
-    grow = [c for c in walk_body(f) if isinstance(c, ast.Call) and isinstance(c.func, ast.Attribute) and c.func.attr in ("extend", "update", "append", "add") and isinstance(c.func.value, ast.Name) and c.args and "output_grammar" in norm_stmt(c.args[0])]
+    # (node, name of the collection that grows, what is added): `a.extend(x)`, `a += x`, `a = a + list(x)`, `a |= x`
+    grow = [(c, c.func.value.id, c.args[0]) for c in walk_body(f) if isinstance(c, ast.Call) and isinstance(c.func, ast.Attribute) and c.func.attr in ("extend", "update", "append", "add") and isinstance(c.func.value, ast.Name) and c.args and "output_grammar" in norm_stmt(c.args[0])]
+    for s_ in stmts_of(f):
+        up = as_update(s_)
+        if up and isinstance(up[0], ast.Name) and isinstance(up[1], (ast.Add, ast.BitOr)) and "output_grammar" in norm_stmt(up[2]):
+            grow.append((s_, up[0].id, up[2]))
     if not grow:
         ctx.ob("8.6-init-order", con, False, "the names made available by a scheduled discipline must be its OUTPUTS (available += discipline.io.output_grammar): nothing of that form is found", node=f, stmt="available += outputs of the scheduled discipline")
         return
-    avail = grow[0].func.value.id
+    avail = grow[0][1]
     cfg = sv.cfg
-    for g in grow:
+    for g, gname, added in grow:
         gn = cfg.node_of(g)
         loops = [s_ for s_ in stmts_of(f) if isinstance(s_, ast.For) and any(sub is g for sub in ast.walk(s_))]
         ctx.need(loops, "the extension of the available names is not in a loop over the remaining disciplines")
         lv = dotted(loops[-1].target)
-        tests = [t for t, v in branch_conditions(cfg, gn) if cfg.kind[t] == "test" and any(sub is cfg.ast[t] for sub in ast.walk(loops[-1]))]
+        tests = [(t, v) for t, v in branch_conditions(cfg, gn) if cfg.kind[t] == "test" and any(sub is cfg.ast[t] for sub in ast.walk(loops[-1]))]
         ctx.need(len(tests) == 1, "the readiness test of the candidate discipline was not found")
-        tst = cfg.ast[tests[0]].test
-        ok = (names_in(g.args[0]) & {lv}) == {lv} and g.func.value.id == avail
+        tnode, tpol = tests[0]
+        tst = cfg.ast[tnode].test
+        ok = (names_in(added) & {lv}) == {lv} and gname == avail
         ctx.ob("8.6-init-order", con, ok, "the names made available must be the outputs of the discipline being scheduled", node=g, stmt="available += outputs of the scheduled discipline")
         for alt in sv.exprs(tst):
-            # operands removed from the required inputs: .difference(x) arguments and right operands of `-`
-            removed, base = [], []
-            for n_ in ast.walk(alt):
-                if isinstance(n_, ast.Call) and isinstance(n_.func, ast.Attribute) and n_.func.attr == "difference":
-                    removed.extend(n_.args)
-                elif isinstance(n_, ast.BinOp) and isinstance(n_.op, ast.Sub):
-                    removed.append(n_.right)
-            bad = [norm_stmt(r_, 60) for r_ in removed if not (dotted(r_) == avail or lv in names_in(r_))]
-            has_own = any(lv in names_in(r_) and "defaults" in norm_stmt(r_) for r_ in removed)
+            shape = _readiness(alt)
+            pol, base, removed = shape if shape is not None else (None, alt, [])
+            bad = []
+            if isinstance(base, ast.Name):
+                # the required names are held by a local that is narrowed in place before the test:
+                # `r = set(inputs); r.difference_update(defaults)` / `r -= defaults`
+                defs = [s_ for s_ in ast.walk(loops[-1]) if isinstance(s_, ast.Assign) and len(s_.targets) == 1 and dotted(s_.targets[0]) == base.id and as_update(s_) is None]
+                if len(defs) == 1 and cfg.dominates(cfg.node_of(defs[0]), tnode):
+                    for s_ in ast.walk(loops[-1]):
+                        up = as_update(s_) if isinstance(s_, ast.stmt) else None
+                        if up and dotted(up[0]) == base.id:
+                            if isinstance(up[1], ast.Sub) and cfg.dominates(cfg.node_of(s_), tnode):
+                                removed = removed + _union_leaves(up[2])
+                            else:
+                                bad.append(norm_stmt(s_, 60))
+                        elif isinstance(s_, ast.Call) and isinstance(s_.func, ast.Attribute) and dotted(s_.func.value) == base.id and s_.func.attr in ("difference_update", "intersection_update", "symmetric_difference_update", "discard", "remove", "pop", "clear", "update", "add"):
+                            if s_.func.attr == "difference_update" and cfg.dominates(cfg.node_of(s_), tnode):
+                                removed = removed + [l_ for a_ in s_.args for l_ in _union_leaves(a_)]
+                            else:
+                                bad.append(norm_stmt(s_, 60))
+                    b_alts = sv.exprs(defs[0].value)
+                    base, more = _difference(b_alts[0]) if len(b_alts) == 1 else (base, [])
+                    removed = removed + more
+            removed = [_unwrap(r_) for r_ in removed]
+            base = _unwrap(base)
+            # its own defaults: `disc.io.input_grammar.defaults` (or the discipline's alias of it, `disc.default_input_data`)
+            own = lambda r_: lv in names_in(r_) and (("input_grammar" in norm_stmt(r_) and "defaults" in norm_stmt(r_)) or "default_input_data" in norm_stmt(r_))  # noqa: E731
+            bad += [norm_stmt(r_, 60) for r_ in removed if not (dotted(r_) == avail or own(r_))]
+            has_own = any(own(r_) for r_ in removed)
             has_avail = any(dotted(r_) == avail for r_ in removed)
-            req = any(isinstance(n_, ast.Attribute) and n_.attr == "input_grammar" and lv in names_in(n_) for n_ in ast.walk(alt))
-            ctx.ob("8.6-init-order", con, bool(removed) and not bad and has_own and has_avail and req, f"a discipline is ready when its inputs minus its own defaults minus the available names is empty; here the inputs are credited with {bad or 'something else'}: a discipline can then be scheduled before the producer of one of its inputs", node=cfg.ast[tests[0]], stmt="ready iff inputs - own defaults - available is empty")
+            req = any(isinstance(n_, ast.Attribute) and n_.attr == "input_grammar" and lv in names_in(n_) for n_ in ast.walk(base)) and "defaults" not in norm_stmt(base)
+            ctx.ob("8.6-init-order", con, pol == tpol and bool(removed) and not bad and has_own and has_avail and req, f"a discipline is ready when its inputs minus its own defaults minus the available names is empty; here the inputs are credited with {bad or 'something else'}: a discipline can then be scheduled before the producer of one of its inputs", node=cfg.ast[tnode], stmt="ready iff inputs - own defaults - available is empty")
     ctx.floor("8.6-init-order", 2)
 
 
